@@ -81,9 +81,17 @@ def check(ctx):
             owner = nname.value.value          # <owner>.type_name.value
             ot = tname(abs_.type_at(fn, owner, c))
             if ot == 'Port':
-                # scope must be <encapsulee>.parent_ns.fqn
-                good = nscope is not None and stxt.endswith('.parent_ns.fqn') and \
-                    tname(abs_.type_at(fn, nscope.value.value, c)) in ('Component', 'System', 'union')
+                # scope must be <encapsulee>.parent_ns.fqn (when the helper gets the scope from its callers: at every call site)
+                views = [(fn, nscope, c)]
+                if isinstance(nscope, ast.Name) and nscope.id in [a.arg for a in fn.params()]:
+                    views = []
+                    for caller, node, kind_ in ctx.cg.callers(fn):
+                        if kind_ == 'call' and isinstance(node, ast.Call):
+                            arg = prog.bind_call(caller.module, node).get(nscope.id)
+                            views.append((caller, norm(caller, arg) if arg is not None else None, node))
+                good = bool(views) and all(
+                    sc is not None and ast.unparse(sc).endswith('.parent_ns.fqn') and
+                    tname(abs_.type_at(f_, sc.value.value, n_)) in ('Component', 'System', 'union') for f_, sc, n_ in views)
                 ok = good
                 why = ('port type resolved from the scope enclosing the encapsulee' if good else
                        f'port type `{txt}` is resolved from `{stxt}`; the referring scope is the encapsulee\'s parent '
@@ -368,6 +376,51 @@ def _kind(ctx, abs_, ex, fn: FuncInfo, call: ast.Call):
             f'{hint_name or "<none>"}: a declaration of another kind is not refused', node=call)
 
 
+def _memo_key_only(ctx, fn: FuncInfo, x: ast.Attribute) -> bool:
+    """`k = f(<owner>.type_name...)`; k is used only to index / probe ONE dict, and what is stored under k is the result of
+    `find_fqn(..., <owner>.type_name.value, ...).get_single_instance(...)`: remembering a resolution under the written name it
+    was made for (within one scope) is not a comparison of names by hand."""
+    prog = ctx.prog
+    st = ctx.flow.enclosing_stmt(x)
+    if not (isinstance(st, ast.Assign) and len(st.targets) == 1 and isinstance(st.targets[0], ast.Name)):
+        return False
+    k = st.targets[0].id
+    owner = ast.unparse(x.value)
+    if sum(1 for n in iter_own_nodes(fn.node) if isinstance(n, ast.Name) and n.id == k and isinstance(n.ctx, ast.Store)) != 1:
+        return False
+    dicts = set()
+    for n in iter_own_nodes(fn.node):
+        if isinstance(n, ast.Name) and n.id == k and isinstance(n.ctx, ast.Load):
+            par = prog.parent(n)
+            if isinstance(par, ast.Subscript) and par.slice is n and isinstance(par.value, ast.Name):
+                dicts.add(par.value.id)
+            elif isinstance(par, ast.Compare) and par.left is n and len(par.ops) == 1 and isinstance(par.ops[0], (ast.In, ast.NotIn)) \
+                    and isinstance(par.comparators[0], ast.Name):
+                dicts.add(par.comparators[0].id)
+            else:
+                return False
+    if len(dicts) != 1:
+        return False
+    d = next(iter(dicts))
+    stores = [a for a in iter_own_nodes(fn.node) if isinstance(a, ast.Assign) and len(a.targets) == 1 and
+              isinstance(a.targets[0], ast.Subscript) and isinstance(a.targets[0].value, ast.Name) and a.targets[0].value.id == d]
+    if not stores:
+        return False
+    for a in stores:
+        v = a.value
+        if not (isinstance(v, ast.Call) and isinstance(v.func, ast.Attribute) and v.func.attr == 'get_single_instance'):
+            return False
+        recv = v.func.value
+        if isinstance(recv, ast.Name):
+            defs = [b for b in iter_own_nodes(fn.node) if isinstance(b, ast.Assign) and len(b.targets) == 1 and
+                    isinstance(b.targets[0], ast.Name) and b.targets[0].id == recv.id]
+            recv = defs[0].value if len(defs) == 1 else None
+        if not (isinstance(recv, ast.Call) and getattr(recv.func, 'id', getattr(recv.func, 'attr', '')) == 'find_fqn' and
+                any(ast.unparse(arg).startswith(owner + '.type_name') for arg in recv.args)):
+            return False
+    return True
+
+
 def _spelling(ctx, abs_, ex):
     run, prog = ctx.run, ctx.prog
     fqn_cls = prog.cls('cpp_gen', 'Fqn')
@@ -396,6 +449,11 @@ def _spelling(ctx, abs_, ex):
                             if any(c.qualname == 'find_fqn' for c in cs):
                                 in_find = True
                         p = prog.parent(p)
+                    if not in_find and _memo_key_only(ctx, fn, x):
+                        run.holds('C07.spelling', fn.module.name, fn.qualname, ctx.flow.enclosing_stmt(x),
+                                  'the written name keys a memo of the declarations that find_fqn resolved for exactly that name',
+                                  node=x)
+                        continue
                     run.add('C07.spelling', fn.module.name, fn.qualname, ctx.flow.enclosing_stmt(x), in_find,
                             'the written name is used only as a lookup key' if in_find else
                             f'the written name `{ast.unparse(x)[:40]}` is used outside a find_fqn lookup (spelled into '
